@@ -187,15 +187,17 @@ def OpenTight (h : H) (s : Store) : Prop :=
   h.dataoffset = (hdrLenOf h : Nat) ∧ h.peak = none ∧ h.dataend = 0 ∧
   (s.bytes.length : Int) = h.dataoffset + h.frames * (h.bw : Int)
 
-/-- … or, in a WAV, exactly the zero pad byte behind an odd-length data chunk -/
+/-- … or, in a WAV, exactly the zero pad byte behind an odd-length data chunk; a PEAK table, if any, has one entry per
+    channel and its chunk sits in front of the data -/
 def OpenPadded (h : H) (s : Store) : Prop :=
-  h.dataoffset = (hdrLenOf h : Nat) ∧ h.peak = none ∧ (h.container ≠ .wav → h.dataend = 0) ∧
+  h.dataoffset = (hdrLenOf h : Nat) ∧ PeakOk h ∧ (h.container ≠ .wav → h.dataend = 0) ∧
   ∃ t : Nat, TailOk h t ∧ (s.bytes.length : Int) = h.dataoffset + h.frames * (h.bw : Int) + t ∧
     s.bytes.drop (s.bytes.length - t) = zeros t
 
 theorem OpenTight.padded {h : H} {s : Store} (ht : OpenTight h s) : OpenPadded h s := by
   obtain ⟨t1, t2, t3, t4⟩ := ht
-  exact ⟨t1, t2, fun _ => t3, 0, Or.inl rfl, by rw [t4]; simp, by simp [zeros]⟩
+  have hpk : PeakOk h := fun ps hp => by rw [t2] at hp; cases hp
+  exact ⟨t1, hpk, fun _ => t3, 0, Or.inl rfl, by rw [t4]; simp, by simp [zeros]⟩
 
 theorem RwInv_open_padded (ix : Nat) (s0 : Store) (fmt : Nat) (ch sr : Int) (h : H) (s : Store)
     (ho : openHandle ix s0 .rw fmt ch sr = .ok h s) (ht : OpenPadded h s) : RwInv h s := by
